@@ -136,7 +136,7 @@ impl Mutations {
     }
 
     pub(crate) fn is_empty(&self) -> bool {
-        self.standalone.is_empty() && self.related.is_empty()
+        self.standalone.is_empty() && self.related.iter().all(Vec::is_empty)
     }
 
     /// Packs mutations into messages.
